@@ -102,6 +102,13 @@ def o1r_recheck_restores(steps, cfg, history):
     for st in steps:
         c = st['cmd']
         pre, post = st['pre'], st['post']
+        # a path recorded as a tracked file stays one unless it is untracked or moved away: a command that makes the record
+        # vanish (e.g. by recording the file as "missing", seeded change C01-5) makes its committed versions unreachable for recheck
+        if pre is not None and post is not None and st['rc'] == 0 and c['op'] not in ('untrack', 'move', 'write', 'delete', 'emptydir', 'link'):
+            for t in pre.recs:
+                if t not in post.recs and pre.recs[t].get('cur'):
+                    out.append((f"step {st['i']} {show_cmd(c)}: {t} was recorded as a tracked file with a committed version before the command and is not afterwards",
+                                {'kind': 'record-vanished'}))
         if c['op'] != 'recheck' or st['rc'] != 0 or pre is None or post is None:
             continue
         for t in c['targets']:
@@ -724,6 +731,12 @@ def RC(ts, **k): return dict({'op': 'recheck', 'targets': ts}, **k)
 
 DEF = {'algo': 0, 'method': 'copy', 'tob': 'auto'}
 CORPUS = [
+    # seeded change C01-5: carry-in with a tracked file missing from the workspace (the unchanged code panics on an assertion before
+    # anything is recorded; a carry-in that goes on must not record the missing file as gone: recheck still restores it)
+    ('carryin-with-missing-target', DEF, [W('a.bin', b'bin\x00\r\nary'), W('b.txt', b'v1\n'), T(['a.bin', 'b.txt']), {'op': 'delete', 'path': 'a.bin'},
+                                          W('b.txt', b'v2 edited\n'), CI(['a.bin', 'b.txt']), RC(['a.bin']), RC(['a.bin'], force=True)]),
+    ('carryin-with-missing-target-force', DEF, [W('a.bin', b'bin\x00\r\nary'), W('b.txt', b'v1\n'), T(['a.bin', 'b.txt'], method='symlink'), {'op': 'delete', 'path': 'a.bin'},
+                                                CI(['b.txt', 'a.bin'], force=True, no_parallel=True), RC(['a.bin'])]),
     # F31 (fixed, formerly known finding K10): a workspace symlink into the cache is not content.  (a) two paths share one object, so
     # for one of them the object's mtime differs from the recorded one and the digest is recomputed with the configured (auto) mode
     # instead of the recorded (binary) one: the link used to be renamed onto the new address; (b) carry-in --force on a symlinked
